@@ -155,6 +155,28 @@ def handleSched (args : List String) : Option String :=
     some (showStore w ++ "|" ++ ptr)
   | _ => none
 
+/-! **A registration of a connecting transport (dial-back)**
+`cdialback|<enableAllow>|<the 8 per-worker fields>|<connecting 0/1>`
+→ `<outhex>|<valid>|<- | D,<hex of the Covert field the dial-back goroutine finds>>`: one worker ingests its
+registration; `CJ.Covert.launched` says whether the last segment launches a dial-back for its object -/
+def handleDialback (args : List String) : Option String :=
+  match args with
+  | [ea, pip, split, dh, pok, hip, res, bh, ah, conn] => do
+    let w0 ← parseWorker 0 [pip, split, dh, pok, hip, res, bh, ah]
+    let (env, pol) ← mkEnv [w0] (← parseBool ea)
+    let connecting ← parseBool conn
+    let rs : Resolver Nat := fun _ => w0.res
+    let inp : Inputs := { ans := fun _ => w0.ans, passes := fun _ => true }
+    let r := parseOrResolve env pol w0.ans rs 0
+    let w := World.init (fun _ => "<provided>") 0
+    let sched := [0, 0, 0, 0]
+    let wA := runSched env pol inp rs w sched
+    let l := launched (fun _ => connecting) env pol inp rs w sched
+    let valid := match wA.store with | some e => e.valid | none => false
+    let d := if l.contains 0 then "D," ++ stringToHex (wA.covertOf 0) else "-"
+    some (stringToHex r.out ++ "|" ++ showBool valid ++ "|" ++ d)
+  | _ => none
+
 def parseReloadEvent (i : Nat) (s : String) : Option (CJ.Config.Outcome Nat × Option Nat × CJ.Config.GeoLoad Nat) :=
   match s.splitOn "," with
   | [c, sl, g] => do
